@@ -67,13 +67,19 @@ type Mutant struct {
 	S     ErrObs   `json:"s"`   // spec.Parse (syntax + semantics)
 }
 
+// what a text may start with: every reported position shifts with it
+var leads = []string{"", "\n\n  ", " ", "\t", "\r\n", "\n", "", "   \n"}
+var leadCounter int
+
 func runMutant(id, mut string, toks []PTok) Mutant {
+	leadCounter++
+	lead := leads[leadCounter%len(leads)]
 	ts := make([]PTok, len(toks))
 	copy(ts, toks)
 	for i := range ts {
 		ts[i].End = ts[i].K == ";"
 	}
-	text := layout(ts, "", " ", "\n")
+	text := layout(ts, lead, " ", "\n")
 	m := Mutant{ID: id, Mut: mut, Text: text, Kinds: []string{}, Pos: [][]int{}}
 	for _, t := range ts {
 		m.Kinds = append(m.Kinds, t.K)
@@ -171,7 +177,8 @@ func init() {
 	commands["syntax-mutants"] = cmdSyntaxMutants
 }
 
-var strays = []string{"#", "'", "@lef", "$", "\"ab", "/ab", "/* x", "\\", "!", "@", "$a", "\"", "%", "`", "@leftx", "//x", "/*y*/", "A"}
+var strays = []string{"#", "'", "@lef", "$", "\"ab", "/ab", "/* x", "\\", "!", "@", "$a", "\"", "%", "`", "@leftx", "//x", "/*y*/", "A",
+	"\f", "\v", "\u00a0", "\u0085"} // blanks that are not white space for the documented scanner
 
 // lexical-mutants: a stray or unterminated lexical element inserted at every token boundary of a valid
 // specification, with the diagnostic of the whole pipeline (spec.Parse); decided by FrontEndCheck.tla.
@@ -230,7 +237,8 @@ func cmdLexicalMutants(args []string) error {
 					if glue {
 						sep = "" // no blanks at all: tokens and the stray text run together
 					}
-					text := layout(ts, "", sep, "\n")
+					leadCounter++
+					text := layout(ts, leads[leadCounter%len(leads)], sep, "\n")
 					if err := w.Write(frontRec(fmt.Sprintf("%s-%d/stray@%d:%s:%v", s.Fam, n, i, stray, glue), text)); err != nil {
 						return err
 					}
